@@ -7,7 +7,7 @@ import common as C
 
 
 def run_hist(ctx, mode, n_quick, n_thorough, shards=6):
-    n = n_thorough if ctx["tier"] == "thorough" else n_quick
+    n = n_thorough if ctx["tier"] == "thorough" else n_quick * ctx.get("boost", 1)
 
     def one(k):
         out = os.path.join(C.WORK, f"h_{mode}_{ctx['seed']}_{k}.json")
